@@ -2,6 +2,7 @@ package main
 
 import (
 	"math/rand/v2"
+	"sort"
 )
 
 // Random programs inside the property's quantifier.
@@ -110,6 +111,9 @@ func (g *gen) ty(depth int) *gty {
 	case k < 73:
 		return slice(g.ty(depth + 1))
 	case k < 77:
+		if g.r.IntN(3) == 0 {
+			return arrayConst(g.self, "LocSize", 3, g.ty(depth+1))
+		}
 		return array(int64(g.r.IntN(5)), g.ty(depth+1))
 	case k < 84:
 		return mapOf(g.keyTy(), g.ty(depth+1))
@@ -311,5 +315,221 @@ func genProgram(r *rand.Rand, name string) *prog {
 	}
 	p.Structs = append(p.Structs, orig)
 	p.Targets = append(p.Targets, "Original")
+	return p
+}
+
+func arrayConst(pkg, name string, n int64, e *gty) *gty {
+	return &gty{K: "array", N: n, Elem: e, LenConst: name, LenPkg: pkg}
+}
+
+// shapeProgram: one method per shape a regression would most plausibly break (each with random
+// detail): variadic of a named type from a renamed import; map of slices of pointers to generic
+// types with type arguments from sibling packages; directory != package name; an unnamed
+// context.Context that is not the first parameter; func-typed parameters with several results;
+// arrays whose length is a constant; user names equal to the generated ones at every position.
+func shapeProgram(r *rand.Rand, name, kind string) *prog {
+	p := &prog{Name: name, Kind: kind, Targets: []string{"Original"}}
+	g := &gen{r: r, self: self(p)}
+	p.RenameA = map[string]string{pRen: "rr"}
+	if r.IntN(2) == 0 {
+		p.RenameA[pV2] = "v2"
+	}
+	if r.IntN(3) == 0 {
+		p.RenameA["context"] = "stdctx"
+	}
+	p.RenameB = map[string]string{pPlain: "pl", pV2: "vv", pThird: "thr", "context": "cx"}
+	small := func() *gty { return g.ty(3) }
+	// parameter lists are either all unnamed or all named (`_` allowed)
+	named2 := func(names []string, ts []*gty) []gpar {
+		out := make([]gpar, len(ts))
+		for i := range ts {
+			out[i] = par(names[i], ts[i])
+		}
+		return out
+	}
+	blank := func(n int) []string { return make([]string, n) }
+	unnamedOr := func(n int, alt ...string) []string {
+		if r.IntN(2) == 0 {
+			return blank(n)
+		}
+		return alt
+	}
+
+	var ms []gmeth
+	// (a) variadic of a named type from a renamed import
+	{
+		lead := r.IntN(3)
+		ts := []*gty{}
+		for i := 0; i < lead; i++ {
+			ts = append(ts, small())
+		}
+		ts = append(ts, slice(pick(r, []*gty{named(pRen, "R"), ptr(named(pRen, "R")), named(pRen, "Gen", g.keyTy(), named(pRen, "R"))})))
+		names := unnamedOr(len(ts), []string{"a", "_", "arg0"}[:0]...)
+		if len(names) != len(ts) {
+			names = make([]string, len(ts))
+			for i := range names {
+				names[i] = pick(r, []string{"_", "arg" + string(rune('0'+i)), "x" + string(rune('0'+i))})
+			}
+		}
+		ms = append(ms, gmeth{Name: "Variadic", PtrRecv: r.IntN(2) == 0, Ps: named2(names, ts), Variadic: true,
+			Rs: []gpar{par("", pick(r, []*gty{tErr, named(pRen, "R")}))}})
+	}
+	// (b) map of slices of pointers to generic types with type arguments from sibling packages
+	{
+		in := mapOf(g.keyTy(), slice(ptr(named(pPlain, "G", pick(r, []*gty{named(pV2, "V"), named(pRen, "R"), named(pOdd, "Odd")})))))
+		out := mapOf(basic("string"), slice(ptr(named(pRen, "Gen", g.keyTy(), named(pV2, "Opt", pick(r, []*gty{named(pThird, "X"), named(pPlain, "T"), named(g.self, "Loc")}))))))
+		ms = append(ms, gmeth{Name: "Nested", File: r.IntN(4) / 3, Ps: named2(unnamedOr(1, "m"), []*gty{in}),
+			Rs: named2(blank(2), []*gty{out, named(g.self, "LocPair", named(pV2, "V"), slice(ptr(named(pPlain, "G", tErr))))})})
+	}
+	// (c) directory != package name (odd-dir -> realname, v2 -> verz)
+	ms = append(ms, gmeth{Name: "DirPkg", Ps: named2(unnamedOr(2, "o", "_"), []*gty{named(pOdd, "Odd"), ptr(named(pV2, "V"))}),
+		Rs: named2(blank(1), []*gty{pick(r, []*gty{named(pOdd, "OddI"), slice(named(pOdd, "Odd")), named(pV2, "Opt", named(pOdd, "Odd"))})})})
+	// (d) unnamed context.Context that is not first (and one that is)
+	{
+		ts := []*gty{pick(r, []*gty{basic("int"), tCtx, small()}), tCtx, pick(r, []*gty{tCtx, named(g.self, "LocCtx")})}
+		names := blank(3)
+		if r.IntN(2) == 0 {
+			names = []string{pick(r, []string{"_", "ctx", "a"}), "_", pick(r, []string{"_", "ctx0", "arg1"})}
+		}
+		ms = append(ms, gmeth{Name: "CtxNotFirst", PtrRecv: true, Ps: named2(names, ts),
+			Rs: named2(blank(2), []*gty{pick(r, []*gty{tErr, basic("int")}), tErr})})
+	}
+	// (e) func-typed parameters with several results
+	{
+		f1 := fn(named2(blank(2), []*gty{tCtx, small()}), false, named2(blank(2), []*gty{small(), tErr}))
+		f2 := fn(named2([]string{"a", "_"}, []*gty{small(), slice(named(pRen, "R"))}), true,
+			named2([]string{"x", "y", "err"}, []*gty{basic("int"), named(pPlain, "T"), tErr}))
+		ms = append(ms, gmeth{Name: "FuncMulti", Ps: named2(unnamedOr(2, "f", "arg0"), []*gty{f1, f2}),
+			Rs: named2(blank(1), []*gty{fn(nil, false, named2(blank(3), []*gty{small(), small(), tErr}))})})
+	}
+	// (f) arrays whose length is a constant (own package, sibling package, literal)
+	ms = append(ms, gmeth{Name: "ArrayConst", File: r.IntN(5) / 4,
+		Ps: named2(unnamedOr(3, "a", "b", "c"), []*gty{arrayConst(g.self, "LocSize", 3, small()),
+			arrayConst(pPlain, "Size", 2, ptr(named(pPlain, "T"))), array(int64(r.IntN(7)), array(2, basic("byte")))}),
+		Rs: named2(blank(1), []*gty{slice(arrayConst(g.self, "LocSize", 3, named(pRen, "R")))})})
+	// (g) user names equal to the generated ones at every position
+	{
+		nin, nout := 1+r.IntN(4), 1+r.IntN(3)
+		ins, outs := make([]string, nin), make([]string, nout)
+		tin, tout := make([]*gty, nin), make([]*gty, nout)
+		for i := range ins {
+			ins[i] = "arg" + string(rune('0'+i))
+			tin[i] = small()
+		}
+		for i := range outs {
+			outs[i] = "ret" + string(rune('0'+i))
+			tout[i] = small()
+		}
+		if r.IntN(2) == 0 {
+			ins[0], tin[0] = "ctx", tCtx
+		}
+		if r.IntN(2) == 0 {
+			outs[nout-1], tout[nout-1] = "err", tErr
+		}
+		ms = append(ms, gmeth{Name: "Generated", Ps: named2(ins, tin), Rs: named2(outs, tout)})
+		// the same names shifted against the positions, mixed with `_`
+		sh := []string{"arg1", "_", "arg0", "arg2"}[:1+r.IntN(4)]
+		ts := make([]*gty, len(sh))
+		for i := range ts {
+			ts[i] = small()
+		}
+		ms = append(ms, gmeth{Name: "Shifted", PtrRecv: true, Ps: named2(sh, ts),
+			Rs: named2([]string{"ret1", "_", "_"}, []*gty{basic("int"), pick(r, []*gty{basic("int"), tErr}), tErr})})
+	}
+	p.Structs = []gstruct{{Name: "Original", Methods: ms}}
+	return p
+}
+
+// embedNameProgram: three or more embedded fields provide the same method NAME with DIFFERENT
+// signatures at different depths (spec: name -> per field 0 = not provided, 1 = declared by the
+// field's type, 2 = declared by a type embedded in the field's type).  Go promotes the unique
+// shallowest declaration, if there is one; the rendered interface must carry that declaration's
+// signature or not list the name at all.
+func embedNameProgram(r *rand.Rand, name, kind string, spec map[string][]int) *prog {
+	p := &prog{Name: name, Kind: kind, Targets: []string{"Original"}}
+	g := &gen{r: r, self: self(p)}
+	p.RenameA = map[string]string{pRen: "rr"}
+	p.RenameB = map[string]string{pPlain: "pl", pV2: "vv", pThird: "thr", "context": "cx"}
+	if spec == nil {
+		k := 3 + r.IntN(3)
+		spec = map[string][]int{}
+		for _, nm := range [][]string{{"Close"}, {"Close", "Get"}, {"Run", "foo"}}[r.IntN(3)] {
+			d := make([]int, k)
+			n := 0
+			for i := range d {
+				d[i] = r.IntN(3)
+				if d[i] > 0 {
+					n++
+				}
+			}
+			for i := 0; n < 3; i++ { // at least three providers
+				if d[i] == 0 {
+					d[i] = 1 + r.IntN(2)
+					n++
+				}
+			}
+			if r.IntN(2) == 0 { // favour a unique shallowest declaration
+				one := r.IntN(k)
+				for i := range d {
+					if d[i] == 1 && i != one {
+						d[i] = 2
+					}
+				}
+				d[one] = 1
+			}
+			spec[nm] = d
+		}
+	}
+	names := make([]string, 0, len(spec))
+	k := 0
+	for nm, d := range spec {
+		names = append(names, nm)
+		k = len(d)
+	}
+	sort.Strings(names)
+	argTypes := []*gty{nil, basic("bool"), basic("int"), basic("string"), slice(basic("byte")), ptr(named(g.self, "Loc")),
+		named(pPlain, "T"), named(pRen, "R"), named(pV2, "V"), tCtx, mapOf(basic("string"), basic("int")), basic("float64")}
+	provider := 0
+	mk := func(nm string) gmeth {
+		j := provider % len(argTypes)
+		provider++
+		m := gmeth{Name: nm, PtrRecv: r.IntN(2) == 0}
+		if argTypes[j] != nil {
+			m.Ps = []gpar{par(pick(r, []string{"", "_", "flush", "arg0"}), argTypes[j])}
+		}
+		if j%2 == 0 {
+			m.Rs = []gpar{par("", tErr)}
+		}
+		return m
+	}
+	orig := gstruct{Name: "Original", Methods: []gmeth{{Name: "Own"}}}
+	if r.IntN(5) == 0 {
+		orig.Methods = append(orig.Methods, mk(names[0])) // the type's own method shadows them all
+	}
+	for i := 0; i < k; i++ {
+		fi := gstruct{Name: "F" + string(rune('0'+i))}
+		gi := gstruct{Name: "G" + string(rune('0'+i))}
+		for _, nm := range names {
+			switch spec[nm][i] {
+			case 1:
+				fi.Methods = append(fi.Methods, mk(nm))
+			case 2:
+				gi.Methods = append(gi.Methods, mk(nm))
+			}
+		}
+		if r.IntN(3) == 0 {
+			fi.Methods = append(fi.Methods, gmeth{Name: "Only" + string(rune('0'+i))})
+		}
+		if len(gi.Methods) > 0 || r.IntN(3) == 0 {
+			p.Structs = append(p.Structs, gi)
+			fi.Embeds = []gembed{{T: named(g.self, gi.Name), Ptr: r.IntN(2) == 0}}
+		}
+		p.Structs = append(p.Structs, fi)
+		if len(fi.Methods) > 0 {
+			p.Targets = append(p.Targets, fi.Name)
+		}
+		orig.Embeds = append(orig.Embeds, gembed{T: named(g.self, fi.Name), Ptr: r.IntN(3) == 0})
+	}
+	p.Structs = append(p.Structs, orig)
 	return p
 }
